@@ -420,7 +420,16 @@ def build_table(mod, codec, max_ops):
         op.update(kw)
         cand.append(op)
 
-    mv = module_values(mod)
+    explicit = mod['src'] == 'ops'          # replay: the operations are given, only Solo is measured
+    if explicit:
+        for o in mod['ops']:
+            op = {'kind': o['kind'], 'type': o['type'], 'cls': o['cls'], 'ct': o['ct'], 'cc': o['cc']}
+            if o['kind'] == 'decode':
+                op['data'] = o['input']
+            else:
+                op['value'] = json.loads(o['input'])
+            cand.append(op)
+    mv = {} if explicit else module_values(mod)
     encodings = []
     for tname in sorted(mv):
         valid, invalid = mv[tname]
@@ -454,6 +463,9 @@ def build_table(mod, codec, max_ops):
     for op in cand:
         r, raw = measure(op)
         if r is None:
+            if explicit:                    # keep the numbering of a replayed execution
+                op['solo'] = 'unmeasurable'
+                table.append(op)
             continue
         op['solo'] = r
         table.append(op)
@@ -462,7 +474,7 @@ def build_table(mod, codec, max_ops):
             if (op['type'], data) not in seen_data:
                 seen_data.add((op['type'], data))
                 encodings.append((op['type'], data))
-    if codec != 'gser':
+    if codec != 'gser' and not explicit:
         dec = []
         for k, (tname, data) in enumerate(encodings):
             dec.append({'kind': 'decode', 'type': tname, 'cls': 'valid', 'data': data.hex(), 'ct': True,
@@ -487,7 +499,7 @@ def build_table(mod, codec, max_ops):
             op['solo'] = r
             table.append(op)
     # bound the table: keep a deterministic spread over classes
-    if len(table) > max_ops:
+    if len(table) > max_ops and not explicit:
         rng = random.Random(len(table) * 7919 + len(text))
         by = {}
         for op in table:
@@ -1067,7 +1079,9 @@ def execute(table, sched, mode, cid, probe_limit):
     line = {
         'cid': '%s-%s' % (cid, mode), 'tid': table['tid'], 'codec': table['codec'], 'mode': mode, 'n': n,
         'sw': sched['sw'], 'hung': hung,
-        'ops': [{'id': o['id'], 'kind': o['kind'], 'type': o['type'], 'cls': o['cls']} for o in used],
+        'ops': [{'id': o['id'], 'kind': o['kind'], 'type': o['type'], 'cls': o['cls'], 'ct': o['ct'], 'cc': o['cc'],
+                 'input': o['data'] if o['kind'] == 'decode' else json.dumps(o['value'])} for o in used],
+        'text': table['text'],
         'solo': [o['solo'] for o in used],
         'prog': prog, 'events': events, 'fp': changed, 'alias': alias,
         'wires': {'instances': graph.nwired, 'containers': graph.ncontainers, 'unwirable': sorted(set(graph.unwirable)),
